@@ -233,6 +233,7 @@ func (r *Run) Finish(cov Coverage) {
 	for _, l := range lines {
 		fmt.Println(l)
 	}
+	Cleanup() // Finish exits the process: clean-up deferred in main would not run
 	if r.broken != "" || flaky != "" {
 		fmt.Fprintf(os.Stderr, "CHECK-BROKEN: %s %s\n", r.broken, flaky)
 		os.Exit(2)
